@@ -1,5 +1,5 @@
 #!/usr/bin/env python3
-"""keep_round2.py <batch report>: keeps the second-round seeds (already CONFIRMED in the report) as
+"""keep_round.py <batch report> [round]: keeps the seeds of a round (already CONFIRMED in the report) as
 /verif/seeded/<id>/ with the harnesses that reported a violation in the report."""
 import sys, re, os, json, shutil, subprocess
 names = {
@@ -25,24 +25,35 @@ names = {
  'C20-1':'makehole-timeout-shrunk','C20-2':'first-mapped-addr-unchecked','C20-3':'recommand-returns-position',
 }
 rep = open(sys.argv[1]).read()
+ROUND = int(sys.argv[2]) if len(sys.argv) > 2 else 2
+OUT = f"/tmp/seed{ROUND}out"
+def slug(title):
+    t = re.sub(r'^[^A-Za-z]*(C\d\d\s*/?\s*)?(seeded\s+)?change\s*\d+\s*[-—:]*\s*', '', title, flags=re.I)
+    t = re.sub(r'\(.*?\)|`', '', t)
+    w = re.findall(r'[A-Za-z0-9]+', t.lower())
+    stop = {'the','a','an','of','to','is','are','in','on','for','and','when','its','it','that','with','no','not','as','by','from','after','before','be','into','at','one','s'}
+    w = [x for x in w if x not in stop][:6]
+    return '-'.join(w)[:48]
 commit = subprocess.check_output(['git','-C','/repo','log','--format=%h','-1']).decode().strip()
 for blk in rep.split('=== ')[1:]:
     head, *rest = blk.split('\n')
-    m = re.match(r'/tmp/seed2out/(C\d\d)/(\d) \((.*)\)', head)
+    m = re.match(r'/tmp/seed\dout/(C\d\d)/(\d) \((.*)\)', head)
     if not m: continue
     P, k, props = m.groups()
     body = '\n'.join(rest)
     if 'NOT-CONFIRMED' in body or 'CONFIRMED' not in body:
         print("skip (not confirmed)", P, k); continue
     caught = sorted(set(re.findall(r'violation in (C\d\d\.[A-Za-z0-9_-]+):', body)) | set(re.findall(r'replay/C\d\d/(C\d\d\.[A-Za-z0-9_-]+?)-\d+\.json', body)))
-    sid = f"{P}-r2-{names[P+'-'+k]}"
-    src = f"/tmp/seed2out/{P}/{k}"; dst = f"/verif/seeded/{sid}"
+    src = f"{OUT}/{P}/{k}"
+    title0 = open(os.path.join(src,'notes.md')).readline()
+    sid = f"{P}-r2-{names[P+'-'+k]}" if ROUND == 2 else f"{P}-r{ROUND}-{k}-{slug(title0)}"
+    dst = f"/verif/seeded/{sid}"
     os.makedirs(dst, exist_ok=True)
     for f in os.listdir(src):
         if f.endswith('.go') or f in ('patch.diff','demo_path.txt','notes.md'):
             shutil.copy(os.path.join(src,f), os.path.join(dst,f))
     title = open(os.path.join(src,'notes.md')).readline().lstrip('# ').strip()
-    meta = {"seed_id": sid, "property": P, "round": 2, "needs_to_manifest": title,
+    meta = {"seed_id": sid, "property": P, "round": ROUND, "needs_to_manifest": title,
             "repo_commit_applied_on": commit,
             "confirmed": "tools/confirm_seed.sh in a scratch worktree: patch applies, go build ./... ok, existing tests pass, demo FAILS with the change and PASSES without",
             "checks_run": f"tools/seed_batch.sh: patch applied in the scratch worktree /tmp/mutrepo, `gosym check {props} --tier quick` against it (GOSYM_REPO), reverted",
